@@ -24,6 +24,10 @@ pub use record::NtsRecord;
 mod messages;
 mod record;
 
+#[cfg(pendulum_project_ntpd_rs_verif)]
+#[path = "/verif/hooks/ntp_proto_nts.rs"]
+pub mod verif_hook;
+
 const DEFAULT_NUMBER_OF_COOKIES: usize = 8;
 
 /// From https://www.iana.org/assignments/aead-parameters/aead-parameters.xhtml
